@@ -265,8 +265,8 @@ func sortedHeaderTokens(h http.Header) string {
 }
 
 func respTokens(rs *respSpec) string {
-	return fmt.Sprintf("%d %s %s %s %d %s %s", rs.Status, kit.HexS(rs.StatusText), hdrTokens(rs.Header), kit.Hex(rs.Body),
-		rs.FailAfter, kit.HexS(rs.ReadErr), kit.B(rs.EndWithData))
+	return fmt.Sprintf("%d %s %s %s %d %s %s %d", rs.Status, kit.HexS(rs.StatusText), hdrTokens(rs.Header), kit.Hex(rs.Body),
+		rs.FailAfter, kit.HexS(rs.ReadErr), kit.B(rs.EndWithData), rs.contentLength())
 }
 
 func urlErrorOp(method string) string {
